@@ -2,6 +2,11 @@
 //! real zlink code on generated inputs and prints one line per case (input + canonical observation).
 mod common;
 mod alias;
+mod moving_alloc;
+
+#[global_allocator]
+static ALLOC: moving_alloc::MovingAlloc = moving_alloc::MovingAlloc;
+
 mod chain;
 mod env;
 mod idl;
